@@ -28,7 +28,7 @@ def _run_shard(module: str, events: list[dict], idx: int, tmp: str, timeout: int
     return idx, verdicts, accepted, errors, p.stdout[-3000:] if not accepted else ''
 
 
-def judge(module: str, events: list[dict], shards: int = 16, timeout: int = 900) -> tuple[dict, dict]:
+def judge(module: str, events: list[dict], shards: int = 16, timeout: int = 900, implicit_ok: bool = False) -> tuple[dict, dict]:
     """returns ({tid: verdict record}, info).  Every event must get a verdict and every shard's trace must be accepted in full
     (POSTCONDITION: TLC consumed all events), else MachineryError - except shards stopped by 32-bit overflow, whose unjudged events
     are reported as skipped_out_of_arithmetic_range."""
@@ -64,6 +64,11 @@ def judge(module: str, events: list[dict], shards: int = 16, timeout: int = 900)
                     else:
                         raise MachineryError(f'trace validation with {module} failed on one event:\n' + '\n'.join(err2[:10]) + '\n' + tail2)
         missing = [e['tid'] for e in events if e['tid'] not in out]
+        if implicit_ok:
+            # the trace specification prints only rejections; acceptance of the whole shard (POSTCONDITION) proves every event was judged
+            for t in missing:
+                out[t] = {'tid': t, 'v': 'ok'}
+            missing = []
         if missing:
             raise MachineryError(f'{len(missing)} events got no verdict from {module}')
         return out, {'events': len(events), 'shards': shards, 'skipped_out_of_arithmetic_range': skipped}
